@@ -37,9 +37,28 @@ Definition get_class (builtins : table) (sysmods : list modl) (python_class : st
   | None => Err EOther                        (* "Unknown classname": never a substitute class *)
   end.
 
+(* ---------- the hook values as Python sees them *)
+(* _get_dependent_packages admits a module of sys.modules when `module._emd_hook is True`;
+   _walk_module_find_classes descends into a member module when `obj._emd_hook == True`  (so 1 or 1.0 opt in there) *)
+Inductive hookv := HAbsent | HTrue | HOne | HFalse | HOtherValue.
+Definition hook_top (h : hookv) : bool := match h with HTrue => true | _ => false end.
+Definition hook_nested (h : hookv) : bool := match h with HTrue | HOne => true | _ => false end.
+Inductive rmember := RClass (cid : nat) (emd : bool) | RMod (h : hookv) (members : list (string * rmember)) | ROther.
+Fixpoint norm (m : rmember) : member :=
+  match m with
+  | RClass c e => MClass c e
+  | RMod h ms => MMod (hook_nested h) (map (fun kv => (fst kv, norm (snd kv))) ms)
+  | ROther => MOther
+  end.
+Definition rmodl := (hookv * list (string * rmember))%type.
+Definition norm_top (m : rmodl) : modl := (hook_top (fst m), map (fun kv => (fst kv, norm (snd kv))) (snd m)).
+Definition get_class_raw (builtins : table) (sysmods : list rmodl) (python_class : string) : res nat :=
+  get_class builtins (map norm_top sysmods) python_class.
+
 (* ---------- Custom: composition *)
 (* a Custom node's group: its node-valued attributes written as groups retagged custom_<type>, then its children *)
-Definition custom_links (attrs : list (string * string)) (kids : list (string * string)) : list (string * string) :=
+Definition custom_links (md : bool) (attrs : list (string * string)) (kids : list (string * string)) : list (string * string) :=
+  (if md then [("metadatabundle", "metadatabundle")] else []) ++
   map (fun kv => (fst kv, "custom_" +++ snd kv)) attrs ++ kids.       (* link name -> emd_group_type *)
 (* _get_emd_attr_data: the links whose group type starts with custom_ , under their names *)
 Definition attr_data (links : list (string * string)) : list string :=
